@@ -26,6 +26,8 @@ type schedReader struct {
 	eofData bool
 	hard    bool
 	kind    int
+	zeros   int // zero-byte reads (0, nil) before every read that returns data; io.Reader allows them
+	zleft   int
 }
 
 var errHard = errors.New("verif: hard read error")
@@ -53,6 +55,13 @@ func (r *schedReader) endErr() error {
 }
 
 func (r *schedReader) Read(p []byte) (int, error) {
+	if r.zeros > 0 && len(p) > 0 {
+		if r.zleft > 0 {
+			r.zleft--
+			return 0, nil
+		}
+		r.zleft = r.zeros
+	}
 	if r.pos >= len(r.data) {
 		return 0, r.endErr()
 	}
@@ -94,6 +103,7 @@ type c18in struct {
 	BufSize int      `json:"initial_buf"`
 	Boxes   []c18box `json:"boxes,omitempty"` // when the stream was built from well-formed boxes
 	NoModel bool     `json:"oracle_only,omitempty"` // large stream: judged by the oracle, not evaluated in Coq
+	Zeros   int      `json:"zero_reads,omitempty"`  // (0, nil) reads before every read with data (no-ops for the model)
 }
 
 type c18box struct {
@@ -118,7 +128,7 @@ func c18run(in c18in) c18obs {
 				done <- c18obs{Res: 9, Err: fmt.Sprint("panic: ", rec)}
 			}
 		}()
-		r := &schedReader{data: in.Stream, sched: in.Sched, eofData: in.EOFData, hard: in.Hard, kind: in.Kind}
+		r := &schedReader{data: in.Stream, sched: in.Sched, eofData: in.EOFData, hard: in.Hard, kind: in.Kind, zeros: in.Zeros, zleft: in.Zeros}
 		var buf []byte
 		if in.BufSize > 0 {
 			buf = make([]byte, in.BufSize)
@@ -463,6 +473,26 @@ func runC18(c *lib.Ctx) error {
 			for bs := 0; bs <= len(data)+1100; bs += step {
 				add(c18in{Stream: data, Sched: nil, EOFData: bs%2 == 0, CbFail: -1, BufSize: bs, NoModel: true}, gid, nil)
 				c.Count("bundled-vector/initial-buffer-sweep")
+			}
+		}
+	}
+	// 3d. readers that interleave zero-byte reads with data (several hundred empty reads over one parse)
+	{
+		nz := 6
+		if c.Thorough() {
+			nz = 40
+		}
+		for i := 0; i < nz; i++ {
+			s, meta, bl, ty := wfStream(2+rng.Intn(6), 60)
+			exp := expectedChunks(bl, ty)
+			gid++
+			one := make([]int, len(s)+2)
+			for k := range one {
+				one[k] = 1 + rng.Intn(3)
+			}
+			for _, z := range []int{0, 1, 3} {
+				add(c18in{Stream: s, Sched: one, EOFData: rng.Intn(2) == 0, CbFail: -1, BufSize: bufSizes[rng.Intn(len(bufSizes))], Boxes: meta, Zeros: z}, gid, exp)
+				c.Count(fmt.Sprintf("zero-reads-%d", z))
 			}
 		}
 	}
